@@ -390,6 +390,34 @@ func (d *drv) settle() {
 	}
 }
 
+// barrier: write a fresh marker and wait until the cache has published it - everything handed to the cache before
+// has then been processed (the input channel is FIFO).  Used after every scripted upstream call so that the
+// grouping of calls into breadcrumbs is the same on every execution of a script.
+func (d *drv) barrier() {
+	items := []kv{}
+	if d.nmark > 0 {
+		items = append(items, kv{K: markerPrefix + strconv.Itoa(d.nmark), Del: true})
+	}
+	d.nmark++
+	name := markerPrefix + strconv.Itoa(d.nmark)
+	items = append(items, kv{K: name})
+	d.up(items)
+	path, err := model.KeyToDefaultPath(model.GlobalConfigKey{Name: name})
+	if err != nil {
+		fatal("%v", err)
+	}
+	deadline := time.Now().Add(bound)
+	for {
+		if _, found := d.cache.CurrentBreadcrumb().KVs.Get(syncproto.SerializedUpdate{Key: path}); found {
+			return
+		}
+		if time.Now().After(deadline) {
+			fatal("timeout: the cache did not publish marker %d within %v (trace %d)", d.nmark, bound, d.pl.log.T)
+		}
+		time.Sleep(50 * time.Microsecond)
+	}
+}
+
 func (d *drv) finish() {
 	for _, n := range d.order {
 		d.hold(n, false)
@@ -409,8 +437,10 @@ func (d *drv) step(op map[string]any) {
 			items = append(items, kv{K: tracelog.Str(m["k"]), Val: tracelog.Int(m["val"]), Del: del})
 		}
 		d.up(items)
+		d.barrier()
 	case "status":
 		d.status(tracelog.Str(op["s"]))
+		d.barrier()
 	case "join":
 		// scripted runs: the join happens at a defined point of the upstream sequence (everything written so far
 		// has been published, and the new connection has taken its snapshot before the next write)
@@ -581,10 +611,11 @@ func main() {
 		}
 		d.finish()
 	}
+	flapsOnly := os.Getenv("VERIF_MODE") == "flaps"
 	for i := 0; i < env.N; i++ {
 		t++
 		rnd := rand.New(rand.NewSource(env.Seed*1000003 + int64(i)))
-		if i < 12 {
+		if i < 12 || flapsOnly {
 			d.flaps(t, rnd, i)
 		} else {
 			d.random(t, rnd)
